@@ -499,19 +499,43 @@ fn genuine(run: &mut Run, rng: &mut Rng, b: &Built, thorough: bool) {
     {
         let mut q = b.datagram.clone();
         let pos = if v6 { 6 } else { 9 };
-        q[pos] = *rng.pick(&[1u8, 6, 17, 58, 47, 0].iter().filter(|x| **x != q[pos]).copied().collect::<Vec<_>>());
+        let own = q[pos];
+        q[pos] = if rng.chance(1, 2) {
+            *rng.pick(&[1u8, 6, 17, 58, 47, 0].iter().filter(|x| **x != own).copied().collect::<Vec<_>>())
+        } else {
+            // any other protocol number (UDP-Lite 136, SCTP 132, DCCP 33, … are datagrams the tracer never sends)
+            let mut p = rng.below(256) as u8;
+            if p == own { p = p.wrapping_add(1); }
+            p
+        };
         foreign.push(("other protocol", q));
+        // the first time for each protocol and family, and now and then afterwards: every protocol number
+        let first = SWEPT.with(|sw| sw.borrow_mut().insert((b.cfg.proto, v6)));
+        if first || rng.chance(1, 64) {
+            run.count("foreign:protocol-sweep");
+            for p in 0..=255u8 {
+                if p != own {
+                    let mut q = b.datagram.clone();
+                    q[pos] = p;
+                    foreign.push(("other protocol", q));
+                }
+            }
+        }
     }
     for (what, d) in foreign {
         let q = quote(&b.cfg, &d, d.len(), rng);
         let m = message(b, &q, ty_te(v6), 0, ExtMode::None, &[], rng);
         let out = op_recv(run, &b.cfg, Some(m.from), &m.bytes);
         if what == "other protocol" {
-            if !matches!(out, RecvOut::Resp(None)) { run.fail("c02-foreign-accepted", format!("{what} cfg=[{}]", b.cfg.tokens())); }
+            if !matches!(out, RecvOut::Resp(None)) { run.fail("c02-foreign-accepted", format!("{what} {} cfg=[{}]", d[if v6 { 6 } else { 9 }], b.cfg.tokens())); }
         } else {
             expect_reject(run, b, &out, what);
         }
     }
+}
+
+thread_local! {
+    static SWEPT: std::cell::RefCell<std::collections::HashSet<(char, bool)>> = std::cell::RefCell::new(std::collections::HashSet::new());
 }
 
 /// structure-aware mutation of a valid message
